@@ -13,7 +13,7 @@
        Such a blob has an empty DER part and never verifies (C04_pattern_differs_only_when_sig_unparseable).
    "Computing a hash never modifies the transaction" is not a theorem (a pure model cannot alias): direct check only. *)
 From PV Require Import Base.Bytes Base.Outcome Base.Varint Gen.GenOpcodes Gen.GenSighashC04
-  Model.Push Model.Sighash Spec.SighashCore Proofs.PushP Proofs.SighashP.
+  Model.Push Model.Sighash Spec.SighashCore Model.SighashBridge Proofs.PushP Proofs.SighashP.
 Local Open Scope N_scope.
 
 (* ---- the script walk terminates: len(script) iterations always suffice ------------------------------ *)
